@@ -82,6 +82,8 @@ type HarnessCfg struct {
 	MaxPaths  int
 	Deadline  time.Duration
 	Label     string
+	Discover   bool            // gobmc pass 1: record which pre-existing memory goroutines write
+	AutoShared map[string]bool // gobmc pass 2: memory slots to treat as shared
 	MaxRecv   int // gobmc: bound on values received from one channel on one thread path
 	MaxEvents int // gobmc: bound on the number of events of one thread path
 	Split     int // decisions near the root whose alternatives are explored by separate workers (-1: none)
